@@ -446,6 +446,35 @@ func c08d(c *Ctx) {
 			c.Check(!skip, "append-only/every-type-recorded", c.W.FuncPos(fn), "every map script type that is read ends up in MapScripts or TableMapScripts", "a map script type can be read without being recorded (an iteration can reach "+c.nearPos(w)+" without an append): it would be missing from the header")
 		}
 	}
+	// ... and every entry of a table that is read is kept: no turn of the entry loop goes round
+	// without appending an entry (a repeated (var, value) pair is still an entry of the table)
+	{
+		var sinks []ssa.Instruction
+		for _, ci := range callsIn(fn) {
+			call, ok := ci.(*ssa.Call)
+			if !ok || calleeName(call) != "builtin:append" {
+				continue
+			}
+			if sl, ok := call.Type().Underlying().(*types.Slice); ok && typeIs(sl.Elem(), "ast", "TableMapScriptEntry") && loopHeaders(fn)[call.Block()] != nil {
+				sinks = append(sinks, call)
+			}
+		}
+		if len(sinks) > 0 {
+			// the innermost loop round the appends is the entry loop
+			heads := loopHeaders(fn)
+			inner := sinks[0]
+			for _, sk := range sinks {
+				if h, hi := heads[sk.Block()], heads[inner.Block()]; h != nil && hi != nil && len(loopBody(h)) < len(loopBody(hi)) {
+					inner = sk
+				}
+			}
+			ordered := append([]ssa.Instruction{inner}, sinks...)
+			w, skip := loopSkipEdges(fn, c.feasibleEdges(fn), ordered...)
+			c.Check(!skip, "append-only/every-entry-recorded", c.W.Pos(inner.Pos()), "every table entry that is read is appended", "a table entry can be read without being appended (a turn of the entry loop can reach "+c.nearPos(w)+" without an append): the table would lack rows that were written")
+		} else {
+			c.Bad("append-only/every-entry-recorded", c.W.FuncPos(fn), "no append of a table entry found inside the entry loop")
+		}
+	}
 	// tableEntries phi: append only
 	okEntries := false
 	instrs(fn, func(in ssa.Instruction) {
